@@ -6,8 +6,7 @@
   theorems are about: the same token and remaining input, the same returned error, the same panic.
   `pars.Line` is the parameter `parsLine`, instantiated with the model's `splitLine`
   (`Gts.C16.splitLine_is_pars_line`: that is the framework's model of `pars.Line`).
-  Also: the statements of the ORIGIN reader `makeGenbankOriginParser` as recognised facts, and what
-  the constant `maxOriginResidues` means.
+  Also: what the constant `maxOriginResidues` of the ORIGIN reader's length guard means.
 -/
 import Gts.Gen.OriginSlow
 import Gts.Lemmas.GoBytes
@@ -240,29 +239,7 @@ example :
     ∧ Gen.slowGenBankOriginParser 10 fmt9 splitLine 1 [32,32,32,32,32,32,32,32,49,32,97,98,10] [] = .error .fail := by
   decide
 
-/-! ### the ORIGIN reader `makeGenbankOriginParser`: recognised statements, the length guard -/
-
-/-- the statements of the parser `makeGenbankOriginParser(length)` returns are the ones the model's
-reader (`Origin.originParser`, `GenBankParse.originField`) follows: field name, rest of the line,
-`Clear`, the guard `length > maxOriginResidues`, `Request(toOriginLength(length))`, the fast path
-`validateOrigin` on the requested bytes and `Advance`, otherwise the slow path on the state, the
-check for a further sequence line, the unparsed `Origin`.  (v0 = length, v1 = gb, v2 = depth,
-v3 = state, v4 = result, v5 = the field-name parser, v6 = err, v7 = p, v8 = parser, v9 = c.)
-A guard moved, dropped or weakened, or the two paths exchanged (seeded C16-e), changes this list. -/
-theorem originReaderFrame_eq :
-    Gen.originReaderFrame = [
-      "v5 := genbankFieldNameParser(\"ORIGIN\", v2)",
-      "return func(v3, v4) error",
-      "if v6 := v5(v3, v4); v6 != nil { return v6 }",
-      "pars.Line(v3, v4)",
-      "v3.Clear()",
-      "if v0 > maxOriginResidues { return pars.NewError(\"sequence is too long for an ORIGIN block\", v3.Position()) }",
-      "if v6 := v3.Request(toOriginLength(v0)); v6 != nil { return pars.NewError(\"not enough bytes in state\", v3.Position()) }",
-      "v7 := v3.Buffer()",
-      "if validateOrigin(v7, v0, v3.Position()) == nil { v3.Advance() } else { v8 := slowGenBankOriginParser(v0); if v6 := v8(v3, v4); v6 != nil { return v6 }; v7 = v4.Token }",
-      "if v9, v6 := pars.Next(v3); v6 == nil && v9 == spaceByte { return pars.NewError(\"sequence is longer than the declared length\", v3.Position()) }",
-      "v1.Origin = &Origin{v7, false}",
-      "return nil"] := rfl
+/-! ### the length guard of the ORIGIN reader -/
 
 /-- `maxOriginResidues` is what its comment says: a positive declared length passes the guard
 `length > maxOriginResidues` exactly when the index `%9d` prints in front of its LAST line (and so
